@@ -34,6 +34,7 @@ public:
         st_t st = st_t::starting;
         event pending;
         bool is_wait = false;
+        bool after = false;      // parked *after* `pending` was executed (post-operation yield)
         wait_pred pred{nullptr, nullptr};
         std::function<void()> body;
         unsigned steps = 0;
@@ -73,6 +74,7 @@ public:
     bool done(int t) const { return _threads[t]->st == st_t::done; }
     bool parked(int t) const { return _threads[t]->st == st_t::parked; }
     const event &pending(int t) const { return _threads[t]->pending; }
+    bool pending_after(int t) const { return _threads[t]->after; }
     bool enabled(int t) const {
         auto &x = *_threads[t];
         if (x.st != st_t::parked) return false;
@@ -124,6 +126,7 @@ public:
     std::vector<logged_event> &log() { return _log; }
     void clear_log() { _log.clear(); }
     bool log_enabled = true;
+    bool yield_after = false;   // also park after every operation (see post())
     // operations for which the harness states that their outcome does not depend on the schedule
     // (documented per replayer); they are executed without giving up the run token
     bool (*no_yield)(const event &) = nullptr;
@@ -135,15 +138,25 @@ public:
         if (no_yield && no_yield(e)) return;   // logged, but not a scheduling point
         s->pending = e;
         s->is_wait = false;
+        s->after = false;
         park(s);
     }
     void post(event &e) override {
         thread_ctl *s = self();
-        if (!s || !log_enabled) return;
-        logged_event le;
-        static_cast<event &>(le) = e;
-        le.thread = s->id;
-        _log.push_back(le);
+        if (!s) return;
+        if (log_enabled) {
+            logged_event le;
+            static_cast<event &>(le) = e;
+            le.thread = s->id;
+            _log.push_back(le);
+        }
+        if (yield_after && !(no_yield && no_yield(e))) {
+            // finest grain: the thread-local code following the operation is a step of its own
+            s->pending = e;
+            s->is_wait = false;
+            s->after = true;
+            park(s);
+        }
     }
     bool wait(event &e, wait_pred changed) override {
         thread_ctl *s = self();
@@ -151,6 +164,7 @@ public:
         for (;;) {
             s->pending = e;
             s->is_wait = true;
+            s->after = false;
             s->pred = changed;
             park(s);
             if (changed()) break;
